@@ -52,6 +52,8 @@ def run(prog: Program, rep, tier="quick"):
     rep.rule("R16.3", "SIBLINGS-AGREE: the value compared with old_ref defaults to ZERO_SHA when the ref is absent")
     rep.rule("R16.4", "writable backends override the abstract operations; overrides accept the base signature")
     rep.rule("R16.5", "TABLE-AGREE: check_ref_format tests every rule of git-check-ref-format(1), each on a path to False")
+    rep.rule("R16.10", "TABLE-AGREE with git: symref resolution depth (SYMREF_MAXDEPTH = 5)")
+    rep.rule("R16.9", "unconditional (old_ref=None) set/remove always take effect: no `return True` without a state mutation before it")
     rep.rule("R16.7", "files backend: after symref resolution, paths and file/directory conflict probes use the resolved name")
     rep.rule("R16.8", "files backend: every successful delete passes the empty-parent-directory cleanup")
     rep.rule("R16.6", "packed-refs grammar: writer and readers agree on '<sha> SP <name> LF', '^<sha> LF', header")
@@ -79,6 +81,53 @@ def run(prog: Program, rep, tier="quick"):
                        "with old_ref=None (documented: unconditional) a `return False` is still reachable: "
                        "refs[x] = value over an existing ref / del refs[x] silently does nothing",
                        out[0].lineno if out else f.node.lineno, [r.lineno for r in out])
+                # R16.9 unconditional operations take effect: under old_ref=None every `return True` is preceded by a
+                # mutation of the backend's state (tests decided by that fact are evaluated, the rest is path-insensitive)
+                from sa.peval import ev
+                from sa.common import cfg_of
+                from sa.flow import must_pass
+                from sa.cfg import node_calls
+                g9 = cfg_of(prog, f)
+                rets9 = [i for i, n in g9.nodes.items() if n.kind == "stmt" and isinstance(n.ast, ast.Return)
+                         and isinstance(n.ast.value, ast.Constant) and n.ast.value.value is True]
+                if rets9:
+                    def effect(n):
+                        a = n.ast
+                        if n.kind != "stmt":
+                            return False
+                        if isinstance(a, ast.Delete) and any(isinstance(t, ast.Subscript) for t in a.targets):
+                            return True
+                        if isinstance(a, (ast.Assign, ast.AugAssign)) and any(isinstance(t, ast.Subscript) for t in (a.targets if isinstance(a, ast.Assign) else [a.target])):
+                            return True
+                        for c in node_calls(n):
+                            if callee_name(c) in ("pop", "_write_ref_update", "_remove_packed_ref", "remove", "unlink", "write", "_update_ref",
+                                                  "add_packed_refs", "_notify", "delete", "_remove_ref", "set_symbolic_ref", "_write_ref"):
+                                return True
+                        return False
+                    eff9 = {i for i, n in g9.nodes.items() if effect(n)}
+                    env9 = {"old_ref": NONE}
+
+                    def edge9(a, b, l):
+                        n = g9.nodes[a]
+                        if n.kind == "test" and l in ("true", "false"):
+                            t = ev(n.ast, env9)[1]
+                            if t is not None and (l == "true") != t:
+                                return False
+                        return True
+                    # accepted idiom (set only): "the ref already has the requested value" - the true edge of an equality
+                    # test between a value that was read and the new value counts as the effect being in place
+                    newp = [a.arg for a in f.node.args.args][3:4] if name == "set_if_equals" else []
+                    for i9, n9 in g9.nodes.items():
+                        if n9.kind == "test" and isinstance(n9.ast, ast.Compare) and len(n9.ast.ops) == 1 and isinstance(n9.ast.ops[0], ast.Eq) and newp \
+                                and newp[0] in {x.id for x in ast.walk(n9.ast) if isinstance(x, ast.Name)}:
+                            for b9, l9 in g9.succ[i9]:
+                                if l9 == "true":
+                                    eff9.add(b9)
+                    bad9 = must_pass(g9, rets9, eff9, edge_ok=edge9)
+                    rep.ob("R16.9", m.rel, f.qual, "with old_ref=None every `return True` follows a mutation of the backend's state", not bad9,
+                           "an unconditional update/delete can answer True without having changed anything (an early `return True` on a "
+                           "lookup that does not see every kind of ref): the ref is still there afterwards",
+                           g9.nodes[bad9[0]].line if bad9 else f.node.lineno)
                 deleg = _delegates(f, COND)
                 zero = any(isinstance(x, ast.Name) and x.id in ("ZERO_SHA",) for x in ast.walk(f.node)) or \
                     any(isinstance(x, ast.Attribute) and x.attr in ("zero_oid", "ZERO_SHA") for x in ast.walk(f.node))
@@ -159,6 +208,22 @@ def run(prog: Program, rep, tier="quick"):
            "a `return True` is reachable without the cleanup of parent directories: an empty directory (left by the lock "
            "file's ensure_dir_exists or by pack_refs) then blocks re-creating a ref of the same name as the directory",
            g.nodes[bad[0]].line if bad else rf.node.lineno)
+    # ---- R16.10 symbolic-ref depth: git resolves chains of up to SYMREF_MAXDEPTH = 5 symbolic hops; the loop bound of
+    # follow() must be the test `depth > 5` (or an equivalent spelling), evaluated after the increment
+    fo = prog.func(REFS_PY, "RefsContainer.follow")
+    from sa.common import var_cmp, same_int_test
+    Ff = Folder(prog, prog.module(REFS_PY))
+    bounds = []
+    for x in ast.walk(fo.node):
+        if isinstance(x, ast.If) and any(isinstance(r, ast.Raise) and "SymrefLoop" in norm(r) for r in x.body):
+            v = var_cmp(x.test, Ff)
+            if v is not None:
+                bounds.append((x, v))
+    ok10 = len(bounds) == 1 and same_int_test(bounds[0][1][1], bounds[0][1][2], ">", 5)
+    rep.ob("R16.10", REFS_PY, fo.qual, "symbolic refs are followed for as many hops as git follows them (raise only when depth > 5)", ok10,
+           (f"the loop gives up when `{norm(bounds[0][0].test)}`" if bounds else "no depth bound found") +
+           ": a loop-free chain that git still resolves raises SymrefLoop here (and updates through it detach HEAD)",
+           bounds[0][0].lineno if bounds else fo.node.lineno)
     # ---- R16.5
     m = prog.module(REFS_PY)
     crf = prog.func(REFS_PY, "check_ref_format")
